@@ -62,7 +62,7 @@ def _gen_param(rng, depth=0):
     return {"cls": "Number"}
 
 
-STRS = ("12", "-3", "5.4", "+7", "0", "1", "2.0", "9007199254740993", "-0.0", "007", "true", "False", "TRUE", "maybe",
+STRS = ("inf", "-Infinity", "1e999", "1e400", "12", "-3", "5.4", "+7", "0", "1", "2.0", "9007199254740993", "-0.0", "007", "true", "False", "TRUE", "maybe",
         "abc", "", "'elev'", '"x"', "''a''", '"\'q\'"', "in.csv", "nofile.csv", "relwork_x.csv", "relwork/in.csv", "/sim/work_in.csv",
         WORK + "/in.csv", WORK + "/nofile.csv", "sub/x.csv", "Float", "Integer", "Positive Float", "Fuzzy", "Complex",
         "r0", "f0", "s0", "pv", "nosuch", "1e3", " 4 ", "0x10", "nan", "1_000")
@@ -168,6 +168,8 @@ def generate(prop, rng, index, tier):
             cleans.append(len(ops) - 1)
         elif r < 0.82:
             ops.append(["RECLEAN", rng.choice(cleans)])        # clean an already-cleaned value
+        elif r < 0.86:
+            ops.append(["VALIDATE", rng.choice(["s0", "f0", "r0", "pv"]), rng.random() < 0.3])
         elif r < 0.9:
             ops.append(["RUN"])
         else:
@@ -467,6 +469,34 @@ def execute(sc):
                     except MPilotError as exc:
                         res.observe("surrounding program failed to run: %s" % type(exc).__name__)
                     epoch += 1
+                    continue
+                if op[0] == "VALIDATE":
+                    # Command.validate_params with the caller's own mapping: it must not be consumed or altered, and a
+                    # second validation of the same mapping must give an equal answer
+                    cmd = program.commands[op[1]]
+                    raw = {a.name: a.value for a in cmd.arguments}
+                    if op[2]:
+                        raw["Bogus"] = 1
+                    before = snapshot(raw)
+                    outs = []
+                    for _ in range(2):
+                        try:
+                            outs.append(("value", cmd.validate_params(raw)))
+                        except MPilotError as exc:
+                            outs.append(("error", type(exc).__name__))
+                        except Exception as exc:  # noqa
+                            outs.append(("raise", type(exc).__name__))
+                            res.violate("C20.raise", "C20.raise %s from validate_params" % type(exc).__name__,
+                                        "validate_params raised %s" % type(exc).__name__)
+                    log.emit("validate", cmd=op[1], outcome=[o[0] for o in outs])
+                    if snapshot(raw) != before:
+                        res.violate("C20.pure", "C20.pure raw-argument-altered validate_params",
+                                    "validate_params altered the caller's parameter mapping of %s" % op[1])
+                    elif outs[0][0] != outs[1][0] or (outs[0][0] == "value" and not equal_values(outs[0][1], outs[1][1])):
+                        res.violate("C20.repeat", "C20.repeat same-raw-value-different-result validate_params",
+                                    "two validations of the same mapping gave %r and %r" % (outs[0][0], outs[1][0]))
+                    else:
+                        res.probe("validate_params twice on the caller's mapping")
                     continue
                 if op[0] == "FS":
                     if op[1] == "delete":
